@@ -212,7 +212,8 @@ fn app_matches(model: &Value, real: &AppObs, expand: usize) -> bool {
     "deliver" => {
       let ids: Vec<String> = model["ids"].as_array().map(|v| v.iter().map(|x| x.as_str().unwrap_or("").to_string()).collect()).unwrap_or_default();
       if expand > 1 {
-        return real.ids.len() == (ids.len().saturating_sub(1)) * expand + 1;
+        let more = ids.len().saturating_sub(1);
+        return real.ids.len() == more * expand + if more > 0 { 1 } else { 0 } + 1;
       }
       ids.len() == real.ids.len() && ids.iter().zip(real.ids.iter()).all(|(m, r)| m == "?" || m == r)
     }
@@ -278,6 +279,7 @@ pub fn run(index: usize, b: &Behaviour, enc: EncImpl, seed: u64, mutate: bool, p
   let mut max_buffer = 0usize;
   let mut last_read = 0usize;
   let mut drifted = false;
+  let mut run_len = 0usize;
   let mut mutated: Option<String> = None;
   // in mutated mode one emitted token (chosen up front) is corrupted
   let emits: Vec<usize> = b.steps.iter().enumerate().filter(|(_, s)| s["a"].as_str() == Some("emit")).map(|(i, _)| i).collect();
@@ -288,11 +290,18 @@ pub fn run(index: usize, b: &Behaviour, enc: EncImpl, seed: u64, mutate: bool, p
       "emit" => {
         let mut bytes = concretize(&st["tok"], &b.cfg, enc, &mut rng);
         let t = &st["tok"];
-        if expand > 1 && t["k"].as_str() == Some("fr") && t["more"].as_bool() == Some(true) && t["cmd"].as_bool() == Some(false) && t["b"]["b"].as_str() != Some("bad") {
+        let is_data = t["k"].as_str() == Some("fr") && t["cmd"].as_bool() == Some(false) && t["b"]["b"].as_str() != Some("bad");
+        if expand > 1 && is_data && t["more"].as_bool() == Some(true) {
+          // the first MORE frame of a message stands for expand+1 real frames, the others for
+          // `expand`: three of them fill the code's per-message limit exactly (85 + 84 + 84 = 253)
+          let reps = if run_len == 0 { expand + 1 } else { expand };
+          run_len += 1;
           let one = bytes.clone();
-          for _ in 1..expand {
+          for _ in 1..reps {
             bytes.extend_from_slice(&one);
           }
+        } else if is_data {
+          run_len = 0;
         }
         labels.push(tok_label(&st["tok"]));
         if victim == Some(si) {
